@@ -173,6 +173,13 @@ def run_shard(spec, acc):
                           Fault("read_error", processed=True), Fault("badop"),
                           Fault("sw_keep", sw=0x6100), Fault("sw_keep", sw=0x61AB),
                           Fault("sw_keep", sw=0x6C00), Fault("sw_keep", sw=0x6C10)]
+            # ---- the same with a repair pending: the request first re-opens the link and
+            # repeats the bring-up (onboard query, mode, version, parameters); a status word
+            # answered to one of THOSE exchanges is an outcome of this request too
+            if not v1 and gi % spec["n"] == spec["shard"] % spec["n"]:
+                for k in range(4):
+                    for sw in REPAIR_SWS:
+                        check_repair_cell(acc, shape, k, sw, allowed)
             # ---- a well-formed answer (status 9000) that carries another opcode of the
             # same command than the step calls for: the device asking for a header after
             # the last block, announcing brothers in the middle of a header, ...  Whatever
@@ -195,6 +202,59 @@ def run_shard(spec, acc):
                 for f in others:
                     check_cell(acc, shape, v1, k, role, f, allowed, base_reply, named, by_src,
                                fw_all)
+
+
+REPAIR_SWS = [0x69A0, 0x6A87, 0x6A8F, 0x6B10, 0x6B87, 0x6BFF, 0x6D00, 0x6985, 0x6E00, 0x6F00,
+              0x6700, 0x9001]
+
+
+def check_repair_cell(acc, shape, k, sw, allowed):
+    """link failure on the shape's request, then the same request again: its repair's
+    k-th bring-up exchange is answered with status sw"""
+    from ..stack import Stack
+    dev = fl.make_device(shape)
+    with Stack(dev) as s:
+        s.initialize()
+        if shape.post:
+            shape.post(dev)
+        s.bus.arm({0: Fault("read_error")})
+        s.request(shape.request)
+        dev.pending_link = None
+        dev.mode = 0x03
+        dev.adv_policy = {}
+        if shape.post and shape.name != "uiHeartbeat.hbmode":
+            shape.post(dev)
+        s.bus.arm({k: Fault("sw", sw=sw)})
+        mark = len(s.bus.events)
+        reply, exc, out = s.request(shape.request)
+        fired = any(e.get("fault") for e in s.bus.events[mark:])
+    if not fired:
+        return          # (this request did not get that far)
+    acc.evaluations += 1
+    acc.distinct_disjoint += 1
+    acc.count("cells_with_a_status_word_inside_a_repair")
+    case = {"shape": shape.name, "v1": False, "k": k, "role": "repair-step-%d" % k,
+            "fault": ["sw", sw, None, False], "prelude": None, "repair": True}
+
+    def bad(mech, **d):
+        d.update(shape=shape.name, repair_step=k, sw="%04x" % sw, reply=reply,
+                 exc=repr(exc) if exc is not None else None)
+        acc.violation(mech, d, case)
+    step = ["onboard-query", "mode-query", "version-query", "parameters-query"][k]
+    if not isinstance(reply, dict) or type(reply.get("errorcode")) is not int or exc is not None:
+        if in_range(sw):
+            if k == 0:
+                # initialize_device() turns a failing onboard query into "stop" on purpose
+                return bad("shutdown:repair-bring-up:onboard-query:in-range-sw")
+            return bad("shutdown:%s:repair-bring-up:%s:in-range-sw" % (shape.command, step))
+        if not isinstance(reply, dict):
+            return bad("no-reply:%s:repair-bring-up:%s" % (shape.command, step))
+        return
+    code = reply["errorcode"]
+    if code not in allowed:
+        return bad("code-not-documented:%s:%d" % (shape.command, code))
+    if code in (0, 1):
+        return bad("success-despite-sw:%s:repair-bring-up:%s" % (shape.command, step))
 
 
 FAMILY_OPCODES = {"adv": [0x02, 0x03, 0x04, 0x05, 0x06, 0x07, 0x08, 0x09],
